@@ -13,6 +13,11 @@ def search(ctx):
 
 
 def run(ctx):
+    # replay files of earlier runs would be mistaken for this run's
+    import glob
+    import os
+    for f in glob.glob(os.path.join(common.VERIF, "evidence", "replays", "C04-*.json")):
+        os.remove(f)
     ctx.extract(["gate"])
     ctx.prove(PROPS, extra_modules=["RotoV.Lemmas.Gate", "RotoV.Model.Gate"])
     if ctx.build_harness("c04"):
@@ -41,5 +46,10 @@ def replay(ctx, data):
         return 1
     if not ctx.build_harness("c04"):
         return 1
-    rep = ctx.harness("c04", ["replay", json.dumps(data["input"])])
-    return 1 if rep and rep.get("impl_violations") else 0
+    inp = data["input"]
+    print(f"function : {inp.get('function')}\nrequest  : get_function::<{inp.get('rust_type')}>({inp.get('name')!r})\n"
+          f"expected : {inp.get('expected')}\nrecorded : {inp.get('real')}")
+    rep = ctx.harness("c04", ["replay", json.dumps(inp)])
+    bad = bool(rep and rep.get("impl_violations"))
+    print("replayed : " + ("the real gate still departs from the documented mapping" if bad else "the real gate now agrees with the documented mapping"))
+    return 1 if bad else 0
